@@ -333,7 +333,7 @@ func (k *c38Kit) singleMutations(archives []*c38Archive) {
 			}
 		}
 		for slot := 0; slot+1 < backup.DefaultHashSlotCount; slot++ {
-			if !k.thorough && slot%16 != 0 && !a.focus[slot] && !a.focus[slot+1] {
+			if !k.thorough && slot%64 != 63 && !a.focus[slot] && !a.focus[slot+1] {
 				continue
 			}
 			x, y := a.slotObjs[slot], a.slotObjs[slot+1]
@@ -460,7 +460,7 @@ func (k *c38Kit) singleMutations(archives []*c38Archive) {
 		"archives":        len(archives),
 		"byte_mutations":  "every byte x {bit0 flipped, 0xFF} of: COMPLETE and every Slot manifest and chunk of the focus Slots of every archive; manifest.json (64 KiB) of the 'rich' archive at offsets <2048, the last 512 and every 17th (thorough: every byte of manifest.json of every archive, more focus Slots incl. the last one, every 16th Slot)",
 		"object_level":    "quick: archive 'min': every object of all 256 Slots deleted, every 16th Slot also last byte cut / +1 byte 00; other archives every 64th Slot; thorough: every object of every archive deleted, cut to {0,1,half,len-1}, +1 byte {00,0a,20,ff,7d}, doubled; objects in byte scope: every truncation length (quick: stride 61 + last 256 lengths for objects > 4 KiB), +1 byte x5, doubled, space-prefixed",
-		"pairs":           "all ordered pairs of focus objects + neighbouring Slots' manifests/first chunks (quick: every 16th Slot): bytes stored under the other key, and swapped",
+		"pairs":           "all ordered pairs of focus objects + neighbouring Slots' manifests/first chunks (quick: every 64th Slot): bytes stored under the other key, and swapped",
 		"order":           "every non-identity permutation of a focus Slot's chunk references (manifest re-encoded) and of its chunk objects",
 		"marker":          "manifest_bytes +-1/0, version 0/2, format variants, every digest nibble, markers and manifests of the other archives (incl. one with the same backup id), CORRUPT marker present",
 		"oversized":       "each focus object replaced by a virtual object of 64 MiB+1 and 1 TiB declared size (must fail with <=1 MiB read)",
